@@ -19,6 +19,7 @@ func init() {
 	reg(&PropSpec{
 		ID: "C01",
 		Harnesses: []HarnessSpec{
+			{Dir: "root", Name: "ZZ_selfcheck_root", Reach: []string{"end"}},
 			{Dir: "root", Name: "ZZ_C01_cash", Reach: []string{"end"}},
 			{Dir: "root", Name: "ZZ_C01_p2sh32", Reach: []string{"end"}},
 			{Dir: "root", Name: "ZZ_C01_script", Reach: []string{"end"}, Tweak: func(c *sym.HarnessCfg, tier string) {
@@ -103,6 +104,7 @@ func init() {
 	reg(&PropSpec{
 		ID: "C09",
 		Harnesses: []HarnessSpec{
+			{Dir: "bloom", Name: "ZZ_selfcheck_bloom", Reach: []string{"end"}},
 			{Dir: "bloom", Name: "ZZ_C09_insert", Variant: "k<=4", Reach: []string{"end"}, Tweak: bloomCfg("maxk", 4)},
 			{Dir: "bloom", Name: "ZZ_C09_query", Variant: "k<=4", Reach: []string{"end"}, Tweak: bloomCfg("maxk", 4)},
 			{Dir: "bloom", Name: "ZZ_C09_murmur", Variant: "len<=12", Reach: []string{"end"}, Tweak: params(false, "maxlen", 12)},
@@ -309,6 +311,7 @@ func init() {
 			{Dir: "bloom", Name: "ZZ_C08_filterload", Reach: []string{"in", "end"}, Tweak: chain(bloomStubs("maxk", 2, "maxop", 4, "maxpushes", 1, "maxpushlen", 1), c08(0))},
 			{Dir: "gcs", Name: "ZZ_C08_frombytes", Variant: "bytes<=1", Reach: []string{"built", "end"}, Tweak: chain(gcsCfg("maxbytes", 1), c08(4096))},
 			{Dir: "gcs", Name: "ZZ_C08_fromnbytes", Variant: "bytes<=2", Tiers: "thorough", Reach: []string{"built", "rejected"}, Tweak: chain(gcsCfg("maxbytes", 2), c08(4096))},
+			{Dir: "merkleblock", Name: "ZZ_C12_extract", Variant: "alloc,n<=1", Reach: []string{"extracted"}, Tweak: chain(merkleCfg("maxn", 1, "maxflagbytes", 1, "hashbits", 2, "bigcounthashes", 1), c08(65536))},
 			{Dir: "jsonpb", Name: "ZZ_C08_convert", Variant: "depth1,width2", Reach: []string{"in", "end"}, Tweak: chain(jsonStubs, c08(0, "depth", 1, "width", 2))},
 			{Dir: "jsonpb", Name: "ZZ_C08_convert", Variant: "depth2,width2", Tiers: "thorough", Reach: []string{"in", "end"}, Tweak: chain(jsonStubs, c08(0, "depth", 2, "width", 2))},
 		},
@@ -335,6 +338,8 @@ func init() {
 	reg(&PropSpec{
 		ID: "C07",
 		Harnesses: []HarnessSpec{
+			{Dir: "base58", Name: "ZZ_selfcheck_b58", Reach: []string{"end"}, Tweak: realB58()},
+			{Dir: "bech32", Name: "ZZ_selfcheck_bech32", Reach: []string{"end"}},
 			{Dir: "base58", Name: "ZZ_C07_b58_bytes", Variant: "bytes<=5", Reach: []string{"end"}, Tweak: realB58("maxbytes", 5)},
 			{Dir: "base58", Name: "ZZ_C07_b58_chars", Variant: "chars<=4", Reach: []string{"end", "foreign"}, Tweak: realB58("maxchars", 4)},
 			{Dir: "base58", Name: "ZZ_C07_check", Reach: []string{"roundtrip", "accepted", "rejected"}, Tweak: b58Stubs("maxpayload", 6, "maxdecoded", 8)},
